@@ -14,7 +14,8 @@ def keyname(key):
         import zlib
         tk = 'T%08x' % zlib.crc32(tk.encode())
     s = '%s|%s|%s' % (fam, tk, pathstr(path))
-    return s.replace(' ', '_')
+    import re as _re
+    return _re.sub(r'[^A-Za-z0-9_.|\[\]*/-]', '_', s)
 
 
 class Event:
